@@ -75,7 +75,10 @@ extern void *mpt_buffer_insert(MPT_STRUCT(buffer) *buf, size_t pos, size_t len)
 	if (init) {
 		while (used < pos) {
 			if (init(base + used, 0) < 0) {
-				break;
+				/* no valid element behind failed position */
+				buf->_used = used;
+				errno = EINVAL;
+				return 0;
 			}
 			used += size;
 		}
